@@ -570,6 +570,96 @@ theorem cu_orderBody (d : Backend) (e : Ex) (key : Pieces) (hkey : CU key) (k : 
 macro "lit" : tactic => `(tactic| (intro pw k; ev))
 macro "litS" : tactic => `(tactic| (intro pw k hk; ev))
 
+/-! ## template expansions (`CustomWithExpr`) that are lexically safe on their own (`Template.ok`) -/
+
+/-- the pieces of an expansion: literal chunks and the renderings of the supplied expressions -/
+def realT (rendered : List Pieces) (l : List Template.Piece) : Pieces :=
+  l.flatMap (fun | .lit s => [Piece.raw s] | .val i => rendered.getD i [.bad])
+
+theorem CU_getD (rendered : List Pieces) (hr : ∀ ps ∈ rendered, CU ps) (i : Nat) : CU (rendered.getD i [.bad]) := by
+  simp only [List.getD_eq_getElem?_getD]
+  cases h : rendered[i]? with
+  | none => exact CS_bad.toU
+  | some x => simpa using hr x (List.mem_of_getElem? h)
+
+theorem hK_realT_lit (rendered : List Pieces) (c : Char) (s : List Char) (r : List Template.Piece) :
+    hK (realT rendered (.lit (c :: s) :: r)) = .ch c := by
+  simp [realT, hK, hP, hL, HK.orElse]
+
+theorem tctx_ctx (rendered : List Pieces) (hr : ∀ ps ∈ rendered, CU ps) :
+    ∀ (l : List Template.Piece) (pw pw' : Bool) (k : HK), (pw = true → pw' = true) → okK k = true →
+      Template.tctx pw' l = true → ctx pw k (realT rendered l) = true
+  | [], _, _, _, _, _, _ => rfl
+  | .lit s :: r, pw, pw', k, hpw, hk, h => by
+    simp only [Template.tctx, Bool.and_eq_true, Bool.not_eq_true', List.isEmpty_eq_false_iff] at h
+    obtain ⟨⟨hne, hq⟩, hrest⟩ := h
+    cases s with
+    | nil => exact absurd rfl hne
+    | cons c0 s0 =>
+      have hreal : realT rendered (.lit (c0 :: s0) :: r) = .raw (c0 :: s0) :: realT rendered r := by simp [realT]
+      rw [hreal]
+      refine ctx_cons _ _ _ _ ?_ ?_
+      · -- text ending in `E` is not followed by a quote
+        simp only [ctxP, Bool.or_eq_true]
+        cases r with
+        | nil =>
+          right
+          simpa [realT, hK] using notQ_of_okK k hk
+        | cons x r' =>
+          cases x with
+          | val i => left; simpa [Template.noEQuote, notE] using hq
+          | lit s' =>
+            cases s' with
+            | nil => simp [Template.noEQuote] at hq
+            | cons c1 s1 =>
+              simp only [Template.noEQuote, Bool.or_eq_true] at hq
+              rcases hq with hq | hq
+              · left; simpa [notE] using hq
+              · right; rw [hK_realT_lit]; simpa [HK.orElse, notQ] using hq
+      · -- what follows
+        have hind : ∀ q q' : Bool, lastWord q (c0 :: s0) = lastWord q' (c0 :: s0) := by
+          intro q q'; simp only [lastWord]; cases hg : (c0 :: s0).getLast? with
+          | none => simp at hg
+          | some c => rfl
+        exact tctx_ctx rendered hr r _ _ k (by intro hh; rw [hind pw' pw]; simpa [endK] using hh) hk hrest
+  | .val i :: r, pw, pw', k, hpw, hk, h => by
+    simp only [Template.tctx, Bool.and_eq_true, Bool.not_eq_true'] at h
+    obtain ⟨⟨hpw', hs⟩, hrest⟩ := h
+    have hpwf : pw = false := by cases pw <;> simp_all
+    have hreal : realT rendered (.val i :: r) = rendered.getD i [.bad] ++ realT rendered r := by simp [realT]
+    rw [hreal]
+    refine ctx_app _ _ _ _ ?_ ?_
+    · refine CU_getD rendered hr i pw _ hpwf ?_
+      cases r with
+      | nil => simpa [realT, hK] using hk
+      | cons x r' =>
+        cases x with
+        | val j => simp [Template.sepHead] at hs
+        | lit s' =>
+          cases s' with
+          | nil => simp [Template.sepHead] at hs
+          | cons c1 s1 =>
+            rw [hK_realT_lit]
+            simpa [HK.orElse, okK, okNext, Template.sepHead] using hs
+    · exact tctx_ctx rendered hr r _ true k (fun _ => rfl) hk hrest
+
+theorem rExEach_length (d : Backend) : ∀ l : ExList, (rExEach d l).length = l.length
+  | .nil => by simp [rExEach, ExList.length]
+  | .cons e r => by simp [rExEach, ExList.length, rExEach_length d r]
+
+/-- a lexically safe template, expanded over operands -/
+theorem c_template (d : Backend) (t : String) (rendered : List Pieces) (hr : ∀ ps ∈ rendered, CU ps)
+    (hok : Template.ok (mark d) (numbered d) Char.isAlpha t.toList rendered.length = true) :
+    CU (rTemplate d t rendered) := by
+  intro pw k hpw hk
+  simp only [Template.ok] at hok
+  simp only [rTemplate]
+  split at hok
+  · rename_i ps hps
+    rw [hps]
+    exact tctx_ctx rendered hr ps pw false k (by intro h; rw [hpw] at h; cases h) hk hok
+  · cases hok
+
 mutual
 theorem c_ex (d : Backend) : ∀ (e : Ex), CU (rEx d e)
   | .col c => by simp only [rEx]; exact (c_rColRef c).toU
@@ -602,7 +692,13 @@ theorem c_ex (d : Backend) : ∀ (e : Ex), CU (rEx d e)
     simp only [rEx]
     exact (CS.app (CTE.appU (a := [S "("]) (by lit) (c_rVals vs true).toU) (CS_S ")") (by ev)).toU
   | .cust s => by simp only [rEx]; exact (CS_raw _).toU
-  | .custWith t vals => by simp only [rEx]; intro pw k _ _; simp [ctx, isMark]
+  | .custWith t vals => by
+    simp only [rEx]
+    split
+    · rename_i hok
+      rw [← rExEach_length d vals] at hok
+      simpa using c_template d t _ (c_exeach d vals) hok
+    · intro pw k _ _; simp [ctx, isMark]
   | .keyword kw => by simp only [rEx]; exact (c_rKw kw).toU
   | .asEnum ty e => by
     simp only [rEx]
@@ -634,6 +730,14 @@ theorem c_exlist (d : Backend) : ∀ (first : Bool) (l : ExList), CF first (rExL
   | first, .cons e r => by
     simp only [rExList]
     exact CF.app (CFE.appU (cfe_sep first ", " (by decide) (by decide)) (c_ex d e)) (c_exlist d false r).toS (h_rExList d r)
+theorem c_exeach (d : Backend) : ∀ (l : ExList), ∀ ps ∈ rExEach d l, CU ps
+  | .nil => by simp [rExEach]
+  | .cons e r => by
+    intro ps hps
+    simp only [rExEach, List.mem_cons] at hps
+    rcases hps with h | h
+    · subst h; exact c_ex d e
+    · exact c_exeach d r ps h
 theorem c_optex (d : Backend) (pre : String) : ∀ (o : Option Ex), notE pre.toList = true → (∀ pw, lastWord pw pre.toList = false) →
     CS (rOptEx d pre o)
   | none => fun _ _ => by simp only [rOptEx]; exact CS_nil
